@@ -5,5 +5,5 @@ THEOREMS = []
 TRUSTED = []
 ASSUMPTIONS = []
 LEVEL_TEXT = 'Lean theorems: the mp_bases table regenerated from the source is exactly (chars_per_limb, big_base, inverse) for every base 2..62; the digit table decodes exactly the documented alphabets; basecase and power-of-two conversions produce exactly the digits; parser = specification; round trip. Models run against the library in all bases on every run.'
-LEVEL_NOTE = 'sizeinbase for non-power-of-two bases is proved only under a bit-length bound (binary64 constant); divide-and-conquer conversion partly by correspondence.'
+LEVEL_NOTE = "mpn_get_str above GET_STR_PRECOMPUTE_THRESHOLD is proved for operands of at most 2^36 limbs (the power-table size comes from a binary64 product); mpz_sizeinbase / the get_str buffer bound hold for every operand an mpz_t can represent (at mpn level up to 2.6*10^15 bits: a model-side counterexample exists just above, not an addressable operand); divide-and-conquer buffer sizing by correspondence (ASan)."
 PLACEHOLDER = True
